@@ -125,3 +125,213 @@ Definition call_emission (x : ctx) (eff : call_effect) (y : ctx) : Prop :=
 
 Definition call_step (x : ctx) (t : tetraplet) (y : ctx) : Prop :=
   exists eff, call_fields x t eff y /\ call_emission x eff y.
+
+(* ------------------------------------------------------------------------------------------ *)
+(* C19: calls run only where addressed; the particle is forwarded exactly where needed *)
+
+(* what execution may do to the requests and the next peers: requests are only appended, and
+   every peer appended to the next peers differs from the current peer *)
+Definition c19_rel (x y : ctx) : Prop :=
+  x_params y = x_params x /\
+  (exists added, x_requests y = x_requests x ++ added) /\
+  (exists sent, x_next_peers y = x_next_peers x ++ sent /\ Forall (fun q => q <> current_peer x) sent).
+
+(* 1. a request is added only by a call whose resolved target is the current peer *)
+Definition C19_requests_local_stmt : Prop :=
+  (* a resolved call addressed to another peer leaves the requests and the request counter alone *)
+  (forall x t args out y,
+      outcome_ctx (resolved_call_execute x t args out) = Some y ->
+      tp_peer t <> current_peer x ->
+      x_requests y = x_requests x /\ x_lcid y = x_lcid x) /\
+  (* a call instruction that changes the requests resolves to the current peer and appends exactly
+     one request: service and function of the resolved triplet under the next request id *)
+  (forall x text tr_ args out y,
+      outcome_ctx (exec_call x text tr_ args out) = Some y ->
+      x_requests y <> x_requests x ->
+      exists t rq, resolve_triplet x tr_ = POk t /\ tp_peer t = current_peer x /\
+                   x_requests y = x_requests x ++ [(x_lcid x + 1, rq)] /\
+                   rq_service rq = tp_service t /\ rq_function rq = tp_function t) /\
+  (* whole executions change the requests only by appending *)
+  (forall hook, hook_preserves c19_rel hook ->
+      forall fuel i x y, outcome_ctx (exec hook fuel i x) = Some y ->
+      exists added, x_requests y = x_requests x ++ added).
+
+(* 2. next peers: everything execution appends differs from the current peer; the outcome's list
+   is duplicate-free, excludes the current peer, and keeps every peer that was pushed *)
+Definition finish_keeps_next (finish : ctx -> ctx + uncatchable) : Prop :=
+  forall x x1, finish x = inl x1 -> x_next_peers x1 = x_next_peers x.
+
+Definition C19_next_peers_not_self_stmt : Prop :=
+  (forall hook, hook_preserves c19_rel hook ->
+      forall fuel i x y, outcome_ctx (exec hook fuel i x) = Some y ->
+      exists sent, x_next_peers y = x_next_peers x ++ sent /\ Forall (fun q => q <> current_peer x) sent) /\
+  (forall l, NoDup (dedup l []) /\ forall q, In q (dedup l []) <-> In q l) /\
+  (forall hook finish, hook_preserves c19_rel hook -> finish_keeps_next finish ->
+      forall fuel i code d next reqs signed,
+        run hook finish fuel i = OutNewData code d next reqs signed ->
+        NoDup next /\ ~ In (rp_current_peer (ri_params i)) next).
+
+(* 3. a resolved call writes a NEW state RequestSentBy(PeerId p) -- one that is not the state met in
+   the previous/current data -- exactly when it pushes its target, which is not the current peer,
+   to the next peers; then p is the current peer *)
+Definition C19_marked_forwarded_stmt : Prop :=
+  forall x t args out y,
+    outcome_ctx (resolved_call_execute x t args out) = Some y ->
+    (forall p, tr y = tr x ++ [SCall (RequestSentBy (SPeer p))] ->
+               ~ met_state x (RequestSentBy (SPeer p)) ->
+               p = current_peer x /\ tp_peer t <> current_peer x /\
+               x_next_peers y = x_next_peers x ++ [tp_peer t]) /\
+    (x_next_peers y <> x_next_peers x ->
+               tp_peer t <> current_peer x /\ x_next_peers y = x_next_peers x ++ [tp_peer t] /\
+               tr y = tr x ++ [SCall (RequestSentBy (SPeer (current_peer x)))]).
+
+(* 5. source tie: the decisive source lines, re-read by tools/genx_calls.py on every run *)
+Definition str_cmp (c : cmp_op) (a b : string) : option bool :=
+  match c with CmpNe => Some (negb (String.eqb a b)) | CmpEq => Some (String.eqb a b) | _ => None end.
+Definition guard_eqb (a b : string * cmp_op * string) : bool :=
+  String.eqb (fst (fst a)) (fst (fst b)) && cmp_op_eqb (snd (fst a)) (snd (fst b)) && String.eqb (snd a) (snd b).
+
+Definition c19_source_agrees : bool :=
+  (* resolved_call.rs: `if tetraplet.peer_pk != current_peer_id { handle_remote_call(..); return Ok(()) }`
+     before the request is inserted *)
+  guard_eqb c19_call_remote_guard ("tetraplet.peer_pk", CmpNe, "exec_ctx.run_parameters.current_peer_id") &&
+  list_eqb String.eqb c19_call_remote_block ["handle_remote_call(tetraplet.peer_pk.clone(), exec_ctx, trace_ctx)"; "return Ok(())"] &&
+  c19_request_insert_after_guard &&
+  (* call_result_setter.rs: handle_remote_call *)
+  list_eqb String.eqb c19_handle_remote_call
+           ["exec_ctx.next_peer_pks.push(peer_pk)"; "exec_ctx.make_subgraph_incomplete()";
+            "CallResult::sent_peer_id(exec_ctx.run_parameters.current_peer_id.clone())";
+            "trace_ctx.meet_call_end(new_call_result)"] &&
+  (* prev_result_handler.rs: the two RequestSentBy arms *)
+  guard_eqb c19_prev_own_request_guard ("peer_id", CmpEq, "exec_ctx.run_parameters.current_peer_id") &&
+  guard_eqb c19_prev_sent_is_current_peer ("tetraplet.peer_pk", CmpEq, "exec_ctx.run_parameters.current_peer_id") &&
+  list_eqb String.eqb c19_prev_sent_arms ["can_execute_now"; "cant_execute_now"] &&
+  (* canon_utils/mod.rs *)
+  guard_eqb c19_canon_unseen_guard ("exec_ctx.run_parameters.current_peer_id", CmpNe, "peer_id") &&
+  list_eqb String.eqb c19_canon_unseen_block
+           ["exec_ctx.make_subgraph_incomplete()"; "exec_ctx.next_peer_pks.push(peer_id)";
+            "CanonResult::request_sent_by(exec_ctx.run_parameters.current_peer_id.clone())";
+            "trace_ctx.meet_canon_end(canon_result)"; "Ok(())"] &&
+  guard_eqb c19_canon_sent_guard ("exec_ctx.run_parameters.current_peer_id", CmpNe, "peer_id") &&
+  (* the only places that push a next peer *)
+  list_eqb (pair_eqb String.eqb String.eqb) c19_next_peer_push_sites
+           [("air/src/execution_step/instructions/call/call_result_setter.rs", "peer_pk");
+            ("air/src/execution_step/instructions/canon_utils/mod.rs", "peer_id")] &&
+  (* farewell_step/outcome.rs *)
+  String.eqb c19_outcome_next_peers "dedup(exec_ctx.next_peer_pks)" &&
+  list_eqb String.eqb c19_dedup_body ["use std::collections::HashSet"; "let set: HashSet<_> = vec.drain(..).collect()";
+                                          "set.into_iter().collect()"].
+
+Definition C19_source_tie_stmt : Prop :=
+  c19_source_agrees = true /\
+  (* the operator of the source guard, read as a function on peer ids, is the model's test *)
+  (forall a b, str_cmp (snd (fst c19_call_remote_guard)) a b = Some (negb (String.eqb a b))) /\
+  (forall x t args out y,
+      outcome_ctx (resolved_call_execute x t args out) = Some y ->
+      x_next_peers y <> x_next_peers x ->
+      str_cmp (snd (fst c19_call_remote_guard)) (tp_peer t) (current_peer x) = Some true).
+
+(* ------------------------------------------------------------------------------------------ *)
+(* 4. the history-level statement (quiescence); not proved here: see checks/C19.py PARTIAL *)
+
+Section History.
+  Variable hook : stream_hook.
+  Variable finish : ctx -> ctx + uncatchable.
+  Variable fuel : nat.
+  Variable script : instr.
+  Variable init : string.                                   (* the init peer *)
+  Variable timestamp ttl : N.
+  Variable service : string -> request -> service_answer.   (* the host of a peer answers a request *)
+
+  Record host := { ho_peer : string; ho_prev : idata; ho_pending : list (N * request) }.
+  Record net := { n_hosts : list host; n_inflight : list (string * idata) (* addressee, data *); n_clean : bool }.
+
+  Inductive hop :=
+  | HStart                              (* the init peer runs on empty data *)
+  | HDeliver (k : nat) (keep : bool)    (* deliver in-flight message k (keep: a duplicate stays in flight) *)
+  | HReturn (p : string).               (* the host of p answers all its pending requests *)
+
+  Definition params_of (p : string) : run_params :=
+    {| rp_init_peer := init; rp_current_peer := p; rp_timestamp := timestamp; rp_ttl := ttl |}.
+
+  Definition run_at (h : host) (cur : idata) (results : list (N * service_answer)) : outcome :=
+    run hook finish fuel {| ri_script := script; ri_params := params_of (ho_peer h); ri_prev := ho_prev h;
+                            ri_cur := cur; ri_results := results |}.
+
+  (* the host contract: store the data, queue the requests, send the data to the next peers *)
+  Definition apply_outcome (n : net) (p : string) (rest : list (N * request)) (o : outcome) : net :=
+    match o with
+    | OutNewData code d next reqs _ =>
+        {| n_hosts := map (fun h => if String.eqb (ho_peer h) p
+                                    then {| ho_peer := p; ho_prev := d; ho_pending := rest ++ reqs |} else h) (n_hosts n);
+           n_inflight := n_inflight n ++ map (fun q => (q, d)) next;
+           n_clean := n_clean n |}
+    | _ => {| n_hosts := n_hosts n; n_inflight := n_inflight n; n_clean := false |}   (* a failed run: not a clean history *)
+    end.
+
+  Definition find_host (n : net) (p : string) : option host :=
+    find (fun h => String.eqb (ho_peer h) p) (n_hosts n).
+
+  Definition step (n : net) (o : hop) : net :=
+    match o with
+    | HStart => match find_host n init with
+                | Some h => apply_outcome n init (ho_pending h) (run_at h empty_data [])
+                | None => n end
+    | HDeliver k keep =>
+        match nth_error (n_inflight n) k with
+        | Some (q, d) =>
+            let n1 := if keep then n
+                      else {| n_hosts := n_hosts n; n_inflight := firstn k (n_inflight n) ++ skipn (S k) (n_inflight n);
+                              n_clean := n_clean n |} in
+            match find_host n1 q with
+            | Some h => apply_outcome n1 q (ho_pending h) (run_at h d [])
+            | None => n1                      (* addressed to nobody: dropped *)
+            end
+        | None => n end
+    | HReturn p =>
+        match find_host n p with
+        | Some h => apply_outcome n p [] (run_at h empty_data (map (fun ir => (fst ir, service p (snd ir))) (ho_pending h)))
+        | None => n end
+    end.
+
+  Definition start_net (peers : list string) : net :=
+    {| n_hosts := map (fun p => {| ho_peer := p; ho_prev := empty_data; ho_pending := [] |}) peers;
+       n_inflight := []; n_clean := true |}.
+
+  Definition quiescent (n : net) : Prop :=
+    n_clean n = true /\ n_inflight n = [] /\ forall h, In h (n_hosts n) -> ho_pending h = [].
+
+  (* all peers' final data merged at an observer that is addressed by nothing *)
+  Definition merge_at (observer : string) (acc : option idata) (d : idata) : option idata :=
+    match acc with
+    | None => None
+    | Some a => match run hook finish fuel {| ri_script := script; ri_params := params_of observer; ri_prev := a;
+                                              ri_cur := d; ri_results := [] |} with
+                | OutNewData _ m _ _ _ => Some m
+                | _ => None end
+    end.
+  Definition merged (observer : string) (n : net) : option idata :=
+    fold_left (merge_at observer) (map ho_prev (n_hosts n)) (Some empty_data).
+
+  (* states marked as sent by a peer other than q *)
+  Definition marks_of_others (q : string) (t : list (state cid)) : nat :=
+    length (filter (fun s => match s with
+                             | SCall (RequestSentBy (SPeer p)) | SCanon (CanonRequestSentBy p) => negb (String.eqb p q)
+                             | _ => false end) t).
+
+  (* once every particle and call result has been delivered, no call or canon that some peer of the
+     network can execute remains marked as sent: given everything that is known (the merge of all
+     final data), no peer takes over a mark left by another peer *)
+  Definition C19_quiescent_for (peers : list string) (observer : string) : Prop :=
+    forall ops, let n := fold_left step ops (start_net peers) in
+      quiescent n ->
+      forall m, merged observer n = Some m ->
+      forall h, In h (n_hosts n) ->
+      forall code d next reqs signed, run_at h m [] = OutNewData code d next reqs signed ->
+        marks_of_others (ho_peer h) (d_trace d) = marks_of_others (ho_peer h) (d_trace m).
+End History.
+
+Definition C19_full (hook : stream_hook) (finish : ctx -> ctx + uncatchable) : Prop :=
+  forall fuel script init timestamp ttl service peers observer,
+    ~ In observer peers -> In init peers ->
+    C19_quiescent_for hook finish fuel script init timestamp ttl service peers observer.
